@@ -8,7 +8,7 @@
    computed result), tied by the correspondence, which compares receiver and
    returned value of the real code on every accepted scalar/point/encoding. *)
 From Coq Require Import ZArith List String.
-From Verif Require Import Model.Effects Proofs.EffectsProofs Proofs.EffectsVerdict.
+From Verif Require Import Model.Effects Proofs.EffectsProofs Proofs.EffectsDocumented Proofs.EffectsVerdictRecv.
 From Verif Require Gen.EffectsIR.
 Import ListNotations.
 Local Open Scope string_scope.
